@@ -613,25 +613,42 @@ std::string Circuit::report() const {
   return ss.str();
 }
 
+namespace {
+/**
+ * @brief Mark the circuit as in use for the duration of a placement call; the
+ * flag gets its previous value back when the call ends, whether it returns or
+ * throws (so that a call made from a callback does not release the outer one)
+ */
+struct InUseGuard {
+  explicit InUseGuard(bool &flag) : flag_(flag), previous_(flag) {
+    flag_ = true;
+  }
+  ~InUseGuard() { flag_ = previous_; }
+  InUseGuard(const InUseGuard &) = delete;
+  InUseGuard &operator=(const InUseGuard &) = delete;
+
+ private:
+  bool &flag_;
+  bool previous_;
+};
+}  // namespace
+
 void Circuit::placeGlobal(const ColoquinteParameters &params,
                           const std::optional<PlacementCallback> &callback) {
-  isInUse_ = true;
+  InUseGuard guard(isInUse_);
   GlobalPlacer::place(*this, params, callback);
-  isInUse_ = false;
 }
 
 void Circuit::legalize(const ColoquinteParameters &params,
                        const std::optional<PlacementCallback> &callback) {
-  isInUse_ = true;
+  InUseGuard guard(isInUse_);
   DetailedPlacer::legalize(*this, params, callback);
-  isInUse_ = false;
 }
 
 void Circuit::placeDetailed(const ColoquinteParameters &params,
                             const std::optional<PlacementCallback> &callback) {
-  isInUse_ = true;
+  InUseGuard guard(isInUse_);
   DetailedPlacer::place(*this, params, callback);
-  isInUse_ = false;
 }
 
 long long Circuit::computeRowPlacementArea(double rowSideMargin) const {
